@@ -323,5 +323,9 @@ PROPS["C20"]["manifest"]["text"] += (" Tx.Inscribe is also proved on a model of 
                                      " appends leave every slice the caller holds unchanged and the result reads as the value model's script; machine-checked witness"
                                      " for the header-only copy (finding F-C20-04, fixed).")
 
+PROPS["C16"]["manifest"]["text"] += (" The field-by-field node-style path is a theorem as well: outputs, UTXOs and whole transactions (without the hex field)"
+                                     " marshalled and unmarshalled come back identical for every amount up to the coin cap (node_output_roundtrip,"
+                                     " node_utxo_roundtrip, node_tx_fieldwise_roundtrip).")
+
 NOT_APPLICABLE = {}
 HOOK_COMMITS = []
